@@ -112,6 +112,9 @@ def generate(seed, tier, index):
             steps.append({"op": "publish_blob", "via": rng.choice(["state", "sibling"])})
         elif r < 0.96:
             steps.append({"op": "read_attr"})
+            if rng.random() < 0.5:
+                steps[-1]["raises"] = True  # the hardware poll behind the Read handler fails this once (IOError)
+                steps.append({"op": rng.choice(["read_attr", "getprops"])})
         else:
             steps.append({"op": "getprops"})
     net = {"latency": rng.choice(["zero", "lan", "slow"]), "frag": rng.choice(["whole", "fixed:7", "random", "coalesce"]), "hwm": 65536}
@@ -183,6 +186,7 @@ def build_driver(scen, trace, sim):
             shadowed.__name__ = f"h{i}"
             shadow[f"h{i}"] = on(srcs if len(srcs) > 1 else srcs[0], cls_kind[h["kind"]])(shadowed)
     rm = scen["read_mode"]
+    read_fault = scen["_read_fault"] = {"armed": False}
     reads = [0]
     installed = []  # every (payload, format) a Read handler of B0 installed, in order
     if rm != "none":
@@ -190,6 +194,9 @@ def build_driver(scen, trace, sim):
             reads[0] += 1
             trace.append({"t": sim.loop.time(), "what": "handler", "hid": tag, "kind": "Read", "coro": rm == "coro", "el": "R0", "vec": "RD",
                           "at_entry": event.element._value})
+            if read_fault["armed"] and rm != "coro":
+                read_fault["armed"] = False
+                raise IOError("sim: the instrument did not answer the poll")
             if rm != "coro":
                 event.element.reset_value(f"fresh{reads[0]}")
         if rm == "coro":
@@ -490,6 +497,16 @@ def execute(scen):
                                      f"it mixes several refreshes (installed during this publication: {frames[-len(before):]})", "facts": dict(facts, kind="BLOB", torn=True)})
             elif op in ("read_attr", "getprops"):
                 if scen["read_mode"] == "none":
+                    continue
+                if op == "read_attr" and st.get("raises") and scen["read_mode"] in ("plain", "plain2"):
+                    # fault: the Read handler raises once; the read fails with it - and the next read polls again as usual
+                    scen["_read_fault"]["armed"] = True
+                    try:
+                        sim.do(lambda: drv.main.rd.r0.value)
+                    except IOError:
+                        probes["read_handler_raised_once"] = probes.get("read_handler_raised_once", 0) + 1
+                    scen["_read_fault"]["armed"] = False
+                    sim.settle()
                     continue
                 if op == "read_attr":
                     got = sim.do(lambda: drv.main.rd.r0.value)
